@@ -83,11 +83,47 @@ Fixpoint chunks (fuel : nat) (s : bytes) {struct fuel} : list bytes :=
   end.
 Definition stdin_records (body : bytes) : list bytes := chunks (fuel_for body) body ++ [[]].
 
+(* body through io.WriterTo (bytes.Reader / bytes.Buffer as used by Post, PostForm, PostFile): every piece is one
+   bufio.Writer.Write.  Write: while len(p) > Available: with an EMPTY buffer the whole of p goes directly to
+   streamWriter.Write, which splits it into records of at most maxWrite bytes; otherwise the buffer is filled and
+   flushed; what remains (<= Available) is buffered. *)
+Definition w_write_b (w : wst) (p : bytes) : wst :=
+  let '(buf, out) := w in
+  let avail := MAXW - blen buf in
+  if blen p <=? avail then (buf ++ p, out)
+  else match buf with
+       | [] => ([], out ++ chunks (fuel_for p) p)
+       | _ =>
+         let first := firstn (Z.to_nat avail) p in
+         let rest := skipn (Z.to_nat avail) p in
+         let out1 := out ++ [buf ++ first] in
+         if blen rest <=? MAXW then (rest, out1) else ([], out1 ++ chunks (fuel_for rest) rest)
+       end.
+(* the pieces a WriterTo hands over: everything at once (k <= 0) or k bytes at a time *)
+Fixpoint pieces (fuel : nat) (k : Z) (s : bytes) {struct fuel} : list bytes :=
+  match s with
+  | [] => []
+  | _ => if blen s <=? k then [s]
+         else match fuel with
+              | O => [s]
+              | S f => firstn (Z.to_nat k) s :: pieces f k (skipn (Z.to_nat k) s)
+              end
+  end.
+Definition pieces_of (k : Z) (body : bytes) : list bytes :=
+  if k <=? 0 then (match body with [] => [] | _ => [body] end)
+  else pieces (S (Z.to_nat (blen body / k))) k body.
+Definition stdin_records_w (ps : list bytes) : list bytes :=
+  snd (w_flush (fold_left w_write_b ps ([], []))) ++ [[]].
+(* bc > 0: the body is an io.Reader (ReadFrom path, independent of the read size); bc <= 0: a WriterTo writing -bc
+   bytes per Write (0 = everything in one Write) *)
+Definition stdin_records_m (bc : Z) (body : bytes) : list bytes :=
+  if 0 <? bc then stdin_records body else stdin_records_w (pieces_of (- bc) body).
+
 (* everything Do writes *)
-Definition do_written (ps : list (bytes * bytes)) (body : bytes) : bytes :=
+Definition do_written (bc : Z) (ps : list (bytes * bytes)) (body : bytes) : bytes :=
   enc_record T_BEGIN [0; 1; 0; 0; 0; 0; 0; 0]
   ++ concat (map (enc_record T_PARAMS) (params_records ps))
-  ++ concat (map (enc_record T_STDIN) (stdin_records body)).
+  ++ concat (map (enc_record T_STDIN) (stdin_records_m bc body)).
 
 (* ------------------------------------------------------------------ client: response reader *)
 (* record.read in a loop, as driven by streamReader.Read: content of EVERY record type is appended.
